@@ -1,10 +1,44 @@
 """C05 -- decided on the serial build model: theorems in coq/props/C05.v, tie and
-oracles in lib/serial_check.py (see its TABLE entry)."""
+oracles in lib/serial_check.py (see its TABLE entry).  Plus one fixed scenario
+outside the script DSL: a target whose NAME cannot be resolved (a path through
+a regular file) among buildable ones, with --keep-going and with jobs running."""
+import os
+import subprocess
+import e2e
 import serial_check
 
 
+def unresolvable_name(run_):
+    out = {"evaluations": 2, "violations": []}
+    pr = e2e.Project(run_["bindir"], "c05name")
+    try:
+        w = lambda n, s: open(os.path.join(pr.root, n), "w").write(s)
+        w("f", "a regular file\n")
+        w("a.t.do", "echo a\n")
+        w("b.t.do", "echo b\n")
+        w("slow.do", "sleep 1.2\necho slow\n")
+        run = lambda *a: subprocess.run(list(a), cwd=pr.root, env=pr.env, stdout=subprocess.PIPE, stderr=subprocess.PIPE, timeout=60)
+        ex = lambda n: os.path.exists(os.path.join(pr.root, n))
+        r1 = run("redo", "-k", "a.t", "f/x", "b.t")
+        if r1.returncode == 0 or not ex("a.t") or not ex("b.t"):
+            out["violations"].append({"oracle": "with --keep-going every requested target that does not depend on a failed one is still built",
+                                      "cmd": "redo -k a.t f/x b.t   (f is a regular file)", "exit": r1.returncode, "a.t built": ex("a.t"), "b.t built": ex("b.t"),
+                                      "stderr": r1.stderr.decode(errors="replace")[-300:]})
+        r2 = run("redo", "-j2", "slow", "f/x")
+        built_at_exit = ex("slow")
+        tg = run("redo-targets").stdout.decode().split()
+        if r2.returncode == 0 or not built_at_exit or "slow" not in tg:
+            out["violations"].append({"oracle": "a failing command does not abandon the jobs it has started",
+                                      "cmd": "redo -j2 slow f/x   (slow.do sleeps 1.2 s)", "exit": r2.returncode,
+                                      "slow installed when redo exited": built_at_exit, "slow known as a target": "slow" in tg,
+                                      "stderr": r2.stderr.decode(errors="replace")[-300:]})
+    finally:
+        pr.close()
+    return out
+
+
 def run(res):
-    serial_check.run(res, "C05")
+    serial_check.run(res, "C05", extra_oracle=unresolvable_name)
 
 
 replay = serial_check.replay
